@@ -10,11 +10,13 @@ from symsig.scalar import B
 
 PROPERTY = "C12"
 FUNCTIONS = ["sigpy.alg.ConjugateGradient.__init__/_update/_done", "sigpy.alg.Alg.update/done", "sigpy.util.axpy/xpay"]
-BOUNDS = {"quick": "A from a fixed family of rational SPD / Hermitian PD matrices (diagonal, dense, ill-conditioned 1e3, repeated eigenvalues), n=2 "
+BOUNDS = {"quick": "ARBITRARY symmetric positive definite A for n=2 (entries are solver variables; up to 3 updates, b and x0 symbolic, Jacobi preconditioner; inductive step) and n=3 (one update); "
+                   "preconditioners that return their argument itself (function and sp.linop.Identity); further A from a fixed family of rational SPD / Hermitian PD matrices (diagonal, dense, ill-conditioned 1e3, repeated eigenvalues), n=2 "
                    "with b and x0 both symbolic, n=3 with b symbolic and x0 concrete (k <= 2); P in {None, Jacobi, dense SPD}; A as function / Linop; "
                    "max_iter in {1, 2, n, n+1}; tol in {0, symbolic > 0}; one indefinite and one semidefinite A for the breakdown branch",
           "thorough": "adds n=3 with both b and x0 symbolic (k <= 3), complex Hermitian n=2 with complex b, x0, n=3 preconditioned"}
-OUTSIDE = ["dimensions 4..12 of the property's quantifier", "symbolic (arbitrary) A: the rational-function iterates are out of reach (probe: > 6 min at n=2)",
+OUTSIDE = ["dimensions 4..12 of the property's quantifier", "arbitrary (symbolic) A beyond: n=2 (every entry a solver variable, Sylvester's criterion assumed) for the unrolled run and the inductive step, "
+           "n=3 for one unrolled update and the un-preconditioned inductive step; arbitrary A with a dense preconditioner",
            "float rounding (ill-conditioning only matters in floats; here arithmetic is exact)"]
 ASSUMPTIONS = ["A, P concrete Hermitian (positive definite unless stated); b, x0 arbitrary (symbolic); exact real arithmetic",
                "Galerkin characterisation: r_k orthogonal to K_k and x_k - x_0 in K_k (the preconditioned Krylov space) is equivalent to A-norm optimality over x_0 + K_k"]
@@ -41,7 +43,26 @@ MATS = {
 PRECS = {"jacobi": None, "dense2": [[2, 1], [1, 1]], "dense3": [[2, 1, 0], [1, 2, 0], [0, 0, 1]]}
 
 
+def _symmat(name, V):
+    """ARBITRARY real symmetric positive definite matrix: entries are solver variables, Sylvester's criterion is the assumption"""
+    n = int(name[-1])
+    M = np.empty((n, n), dtype=object if V.symbolic else np.float64)
+    for i in range(n):
+        for j in range(i, n):
+            if name.startswith("symdiag") and i != j:
+                e = S.SymK.lift(Fraction(0)) if V.symbolic else 0.0
+            else:
+                e = V.scalar("a%d%d" % (i, j))
+            M[i, j] = e
+            M[j, i] = e
+    for k in range(1, n + 1):
+        V.assume(O.gt(_det([[M[i, j] for j in range(k)] for i in range(k)]), 0), "leading minor %d of A > 0 (A positive definite)" % k)
+    return M, False
+
+
 def _mat(name, V):
+    if name.startswith("sym"):
+        return _symmat(name, V)
     rows = MATS[name]
     n = len(rows)
     cplx = any(isinstance(e, tuple) for r in rows for e in r)
@@ -101,7 +122,7 @@ def h_cg(cfg, V):
     old = S.EQ_VIA_SOLVER
     # n = 3: rational-function iterates are cancelled by the preprocessing algebra before the identity is handed over;
     # n = 2: both sides go to the solver cross-multiplied
-    S.EQ_VIA_SOLVER = bool(cfg.get("eq_via_solver", len(MATS[cfg["A"]]) == 2))
+    S.EQ_VIA_SOLVER = bool(cfg.get("eq_via_solver", int(cfg["A"][-1]) == 2))
     try:
         return _cg(cfg, V, sp, alg)
     finally:
@@ -146,10 +167,21 @@ def _cg(cfg, V, sp, alg):
         Pm = np.zeros((n, n), dtype=object if V.symbolic else np.float64)
         for i in range(n):
             Pm[i, i] = 1 / Amat[i, i]
-    elif cfg["P"]:
+    elif cfg["P"] and cfg["P"] in PRECS:
         Pm = _pmat(PRECS[cfg["P"]], V)
     if Pm is not None:
         P = (lambda v: Pm @ v)
+    if cfg["P"] in ("same_object", "identity_linop"):
+        # a preconditioner that hands back its argument ITSELF (sp.linop.Identity does, and so does any user function that scales in place):
+        # r, z and p then start out as one buffer unless the solver copies
+        Pm = np.zeros((n, n), dtype=object if V.symbolic else np.float64)
+        for i in range(n):
+            Pm[i, i] = S.SymK.lift(Fraction(1)) if V.symbolic else 1.0
+        for i in range(n):
+            for j in range(n):
+                if i != j:
+                    Pm[i, j] = S.SymK.lift(Fraction(0)) if V.symbolic else 0.0
+        P = (lambda v: v) if cfg["P"] == "same_object" else sp.linop.Identity(list(np.shape(b)))
     tol = 0
     if cfg["tol"] == "sym":
         tol = V.scalar("tol")
@@ -307,6 +339,23 @@ def configs(tier, seed):
     for A in ("diag2", "dense2", "ill2", "rep2") + (("dense3", "ill3", "rep3") if full else ("dense3",)):
         for P in (None, "jacobi"):
             out.append({"id": "cg_state:%s:P=%s" % (A, P), "h": "cg_state", "A": A, "P": P, "max_paths": 200, "cost": 20})
+    for A in ("dense2", "sym2", "dense3"):
+        add(A, "sym", "zero", "same_object", "func", 3, "0", 3, cost=60)
+    add("dense2", "sym", "sym", "identity_linop", "linop", 3, "0", 2, cost=60)
+    # ARBITRARY symmetric positive definite A (entries are solver variables, Sylvester's criterion assumed)
+    for P in (None, "jacobi"):
+        out.append({"id": "cg_state:sym2:P=%s" % P, "h": "cg_state", "A": "sym2", "P": P, "max_paths": 200, "cost": 60})
+    add("sym2", "sym", "zero", None, "func", 2, "0", 1, cost=60)
+    add("sym2", "sym", "zero", None, "func", 3, "0", 2, cost=100)
+    add("sym2", "sym", "sym", "jacobi", "func", 3, "0", 3, cost=100)
+    add("sym3", "sym", "zero", None, "func", 3, "0", 1, cost=100)
+    if full:
+        # measured on the unchanged tree (loaded machine): 510 s, 330 s, 340 s, 160 s.  Outside (900 s budget exceeded / z3 unknown): sym2 with a dense
+        # preconditioner, two or more unrolled updates with an arbitrary 3x3 A, the inductive step with an arbitrary 3x3 A and Jacobi preconditioner
+        add("sym2", "sym", "sym", None, "func", 3, "0", 3, cost=600, anorm=True)
+        add("sym2", "sym", "sym", None, "linop", 2, "sym", 2, cost=400)
+        out.append(dict(out[-1], id=out[-1]["id"] + ":strided", layout="strided"))
+        out.append({"id": "cg_state:sym3:P=None", "h": "cg_state", "A": "sym3", "P": None, "max_paths": 200, "cost": 300})
     add("herm2", "sym", "zero", None, "func", 2, "0", 2, cost=50)
     if full:
         add("herm2ill", "sym", "zero", "jacobi", "func", 3, "0", 2, cost=300)
